@@ -225,18 +225,22 @@ def seed_for(pid):
 
 
 def write_replay(pid, seed, payload):
-    os.makedirs(os.path.join(VERIF, "replay"), exist_ok=True)
-    path = os.path.join(VERIF, "replay", f"{pid}-{seed}.json")
+    rdir = os.path.join(VERIF, "replay") if os.path.realpath(REPO) == "/repo" else os.path.join(BUILD, "replay-scratch")
+    os.makedirs(rdir, exist_ok=True)
+    path = os.path.join(rdir, f"{pid}-{seed}.json")
     with open(path, "w") as f:
         json.dump(payload, f, indent=1, default=str)
     return path
 
 
 def write_evidence(pid, tier, seed, coverage, wall, violations, assumptions=None, level="proof"):
-    os.makedirs(os.path.join(VERIF, "evidence"), exist_ok=True)
+    edir = os.path.join(VERIF, "evidence")
+    if os.path.realpath(REPO) != "/repo":      # runs against a scratch copy (seeded changes) never touch the committed evidence
+        edir = os.path.join(BUILD, "evidence-scratch")
+    os.makedirs(edir, exist_ok=True)
     ev = dict(property_id=pid, tier=tier, seed=seed, level=level, coverage=coverage,
               assumptions=assumptions or [], wall_s=round(wall, 2), violations=violations)
-    with open(os.path.join(VERIF, "evidence", pid + ".json"), "w") as f:
+    with open(os.path.join(edir, pid + ".json"), "w") as f:
         json.dump(ev, f, indent=1, default=str)
 
 
